@@ -1952,7 +1952,16 @@ class Compiler:
             key = ast.Constant(node.names[0])
 
         index = identifier("__index", id(node))
-        assignment = [ast.Assign(targets=targets, value=load("__item"))]
+
+        # The item is assigned (unpacked) once -- it may be an iterator;
+        # a non-local loop copies the values into the other context.
+        assignment = [ast.Assign(targets=targets[:1], value=load("__item"))]
+        for name in node.names:
+            for context in contexts[1:]:
+                assignment += template(
+                    "CONTEXT[KEY] = econtext[KEY]",
+                    CONTEXT=context, KEY=ast.Constant(str(name)),
+                )
 
         # Make repeat assignment in outer loop
         names = node.names
